@@ -7,9 +7,11 @@
    key cases:    mask 1 keys of at_derivation_index, 2 script_pubkey of the derived descriptor,
                  4 error class, 8 error vs script, 16 ok/error disagreement
    split cases:  mask 1 keys of the single descriptors, 4 error class, 16 ok/error disagreement
-   find cases:   mask 1 index, 2 found/not found *)
+   find cases:   mask 1 index, 2 found/not found
+   parse cases:  mask 1 parsed key, 2 print(parse) differs from the text, 4 error kind,
+                 16 accepted/rejected disagreement *)
 From Coq Require Import List NArith.
 Import ListNotations.
 From Verif Require Import DescWrapModel DescCasesDefs DescPoolGen DescTablesGen DescScriptCasesGen DescKeyCasesGen DescSplitCasesGen DescCasesRun.
 
-Eval vm_compute in (firstn 40 failing_scripts, firstn 40 failing_keys, firstn 40 failing_splits, firstn 40 failing_finds).
+Eval vm_compute in (firstn 40 failing_scripts, firstn 40 failing_keys, firstn 40 failing_splits, firstn 40 failing_finds, firstn 40 failing_parses).
